@@ -881,6 +881,9 @@ func runC14(c *core.Ctx) {
 		}
 	}
 	env.fileReadAt(&specs[1])
+	if ents, err := os.ReadDir(env.workdir); err == nil && len(ents) > 0 {
+		c.Note("%d temp files of the file-backed page buffer pools were left behind by writers whose destination failed (resource observation, not part of C14)", len(ents))
+	}
 
 	// vm_compute sample: the tiny layout, a spread of faults and buffer sizes,
 	// expected = what the Go writer did
@@ -1075,8 +1078,28 @@ func (env *c14Env) truncation(sp *c14Spec, lay *c14Layout) {
 		ls = append(ls, l)
 	}
 	sort.Ints(ls)
-	pastMagic := 0
+	// Memory cap: OpenFile allocates the footer length found in the last 8
+	// bytes once the trailing magic matched.  Should the magic check not reject
+	// (probed on a prefix with a small length field), prefixes whose field
+	// exceeds 16 MiB are skipped instead of allocating gigabytes per prefix.
+	le32 := func(b []byte) int { return int(uint32(b[0]) | uint32(b[1])<<8 | uint32(b[2])<<16 | uint32(b[3])<<24) }
+	isMagic := func(b []byte) bool { return string(b) == "PAR1" || string(b) == "PARE" }
+	magicRejects := true
 	for _, l := range ls {
+		if l >= 12 && !isMagic(ref[l-4:l]) && le32(ref[l-8:l-4]) < 1<<20 {
+			_, stage, err, _ := env.readAll(sp, bytes.NewReader(ref[:l:l]), int64(l))
+			if stage != "open" || c14OpenClass(err) != "bad-tail-magic" {
+				magicRejects = false
+			}
+			break
+		}
+	}
+	pastMagic, skipped := 0, 0
+	for _, l := range ls {
+		if !magicRejects && l >= 8 && !isMagic(ref[l-4:l]) && le32(ref[l-8:l-4]) > 1<<24 {
+			skipped++
+			continue
+		}
 		p := ref[:l:l]
 		rp := c14Replay{What: "truncate", Spec: *sp, L: l}
 		rows, stage, err, panicked := env.readAll(sp, bytes.NewReader(p), int64(l))
@@ -1111,6 +1134,9 @@ func (env *c14Env) truncation(sp *c14Spec, lay *c14Layout) {
 		c.Case("truncate/"+class, fmt.Sprintf("%s|%d", sp.Name, l), true)
 	}
 	c.Note("file %s (%d bytes): %d prefixes, %d of them passed the magic checks (planted trailers) and were rejected later", sp.Name, n, len(ls), pastMagic)
+	if skipped > 0 {
+		c.Note("file %s: the trailing magic check does not reject; %d prefixes whose length field exceeds 16 MiB were skipped (memory cap)", sp.Name, skipped)
+	}
 }
 
 // c14FaultyReaderAt injects one fault at a call index, or a truncation.
